@@ -1590,6 +1590,7 @@ int32_t tls13ParseServerName(ssl_t *ssl,
             psTraceErrr("Out of mem\n");
             goto out_internal_error;
         }
+        copiedLen = hostNameLen; /* in: room in expectedName, out: bytes copied */
         psParseBufCopyN(pb,
                 hostNameLen,
                 (unsigned char*)ssl->expectedName,
